@@ -17,7 +17,8 @@ TNext ==
   /\ IF "e" \in DOMAIN Rec[l]
      THEN LET r == CApply(st, Rec[l], l) IN
             /\ st' = r.st
-            /\ viol' = viol \cup {<<x[1], x[2], l>> : x \in r.bad}
+            \* first violation of each property only (later ones may be knock-on; an ever-growing set is slow)
+            /\ viol' = viol \cup {<<x[1], x[2], l>> : x \in {y \in r.bad : y[1] \notin {v[1] : v \in viol}}}
      ELSE /\ st' = CApplyLo(st, Rec[l])
           /\ UNCHANGED viol
   /\ l' = l + 1
